@@ -159,7 +159,7 @@ func rulePrecTable(p *Prog, r *Result) {
 			return false, false
 		}))
 		okAll = true
-		for b := range reach {
+		for _, b := range orderedBlocks(fn, reach) {
 			if ret := retOf(b); ret != nil {
 				if c, ok := constInt(retVal(ret, 0)); ok {
 					vals = append(vals, c)
@@ -420,7 +420,7 @@ func ruleKWTable(p *Prog, r *Result) {
 			return false, false
 		}))
 		kinds := map[int64]bool{}
-		for b := range reach {
+		for _, b := range orderedBlocks(fn, reach) {
 			for _, in := range b.Instrs {
 				if st, ok := in.(*ssa.Store); ok {
 					if o, f, _, ok := fieldOfAddr(st.Addr); ok && o != nil && o.Obj().Name() == "Token" && f == "Tp" {
